@@ -27,6 +27,10 @@ type Case struct {
 	Comp int        `json:"comp"`
 	WBuf int        `json:"wbuf"`
 	Recs []gen.Blob `json:"recs"`
+	// Back > 0: after Recs the writer seeks back to the start of the Back-th record from the end and writes Tail from
+	// there (a rolled-back write, as the table writer does it); the file then holds Recs[:n-Back] + Tail
+	Back int        `json:"back,omitempty"`
+	Tail []gen.Blob `json:"tail,omitempty"`
 }
 
 func Gen() *rapid.Generator[Case] {
@@ -38,6 +42,13 @@ func Gen() *rapid.Generator[Case] {
 		bg := gen.BlobGen(true, true, []int{64, 1024, 4096}, 5000)
 		for i := 0; i < n; i++ {
 			c.Recs = append(c.Recs, bg.Draw(t, "rec"))
+		}
+		if n > 0 && rapid.IntRange(0, 3).Draw(t, "rewind") == 0 {
+			c.Back = rapid.IntRange(1, min(n, 3)).Draw(t, "back")
+			nt := rapid.IntRange(0, 2).Draw(t, "ntail")
+			for i := 0; i < nt; i++ {
+				c.Tail = append(c.Tail, bg.Draw(t, "tailrec"))
+			}
 		}
 		return c
 	})
@@ -103,9 +114,14 @@ func Prop(c Case, x *h.Ctx) *h.Violation {
 	dir, done := h.Scratch("c20")
 	defer done()
 	path := filepath.Join(dir, "f.rio")
-	recs := make([][]byte, len(c.Recs))
+	final := c.Recs
+	if c.Back > 0 && c.Back <= len(c.Recs) {
+		final = append(append([]gen.Blob{}, c.Recs[:len(c.Recs)-c.Back]...), c.Tail...)
+		x.Label("seek-back-and-rewrite")
+	}
+	recs := make([][]byte, len(final))
 	hasNil, hasEmpty, hasData := false, false, false
-	for i, b := range c.Recs {
+	for i, b := range final {
 		recs[i] = b.Bytes()
 		switch {
 		case recs[i] == nil:
@@ -116,7 +132,20 @@ func Prop(c Case, x *h.Ctx) *h.Violation {
 			hasData = true
 		}
 	}
-	offs, size, err := rio.WriteSimple(path, c.Comp, c.WBuf, recs)
+	var (
+		offs []uint64
+		size uint64
+		err  error
+	)
+	if !(c.Back > 0 && c.Back <= len(c.Recs)) {
+		offs, size, err = rio.WriteSimple(path, c.Comp, c.WBuf, recs)
+	} else {
+		all := make([][]byte, len(c.Recs))
+		for i, b := range c.Recs {
+			all[i] = b.Bytes()
+		}
+		offs, size, err = rio.WriteRewound(path, c.Comp, c.WBuf, all, c.Back, recs[len(c.Recs)-c.Back:])
+	}
 	if err != nil {
 		return h.V("kaitai/write-err", "writing file: %v", err)
 	}
